@@ -45,6 +45,10 @@ CHECKS = {
                 technique="deviation-bounded exhaustive mutation: every catalogue mutation at every site of every seed proto (singles; pairs and single-byte substitutions in thorough), with termination alarm, link-invariant, fixpoint and file-access oracles",
                 text="31 valid seed models covering every construct of the C02 catalogue are mutated at every site: each string emptied / aliased to a sibling / dangling, each repeated element deleted / duplicated / swapped / reversed, each enum unknown, each int negative or huge, each bytes field truncated or invalid UTF-8, each optional message cleared, plus structural mutants (cycles, inconsistent tensor fields, absurd external-data entries, self-nested graph attributes, missing types, name collisions, nested bodies naming outer values). Every mutant must terminate within 5 s and either raise or return an IR that satisfies the C01 link invariant, whose values are owned by their producer's graph, whose serialisation raises or is a byte-exact fixpoint of one more round trip, and that touched no file (Python-level interception of open/stat/... on canary paths) during deserialisation or while reading name/dtype/shape/size of its tensors.",
                 note="File access is observed at the Python level (the library is pure Python); unparsable byte mutants are outside the property."),
+    "C20": dict(level="model_checking", engine="E1-bfs", design="4/C20",
+                technique="differential exploration of all edit histories (C01 alphabet + one-shot-iterable and field-setter calls) executed plainly vs inside one / nested journals vs with an exception thrown out of the journal block at every position; class-table identity check after every exit",
+                text="Every history up to depth 2 (quick: depth 2 below one representative of every call-site class of one seed, depth 1 everywhere; thorough: depth 2 everywhere, six seeds) is replayed on fresh real objects in >= 6 variants. Outcomes (return/exception per call) and the final canonical state must equal the plain run; the entries recorded during each public call must match, as a multiset of target classes, the instrumented calls logged by an independent call logger in the plain run (entries of raising calls tolerated); outer journals keep recording while inner ones are active; after every exit (normal, nested, by exception) every attribute of every IR class is the original function object / property triple; after dropping the world no entry keeps an IR object alive; a left journal records nothing.",
+                note="The set of instrumented operations is read from the library's own table; entry matching is per public call, by target class."),
 }
 
 NOT_YET = {}
@@ -82,7 +86,7 @@ def main():
             "add_only": True,
         },
         "engines": [
-            {"name": "E1-bfs", "path": "mc/explore.py", "serves_properties": ["C01", "C06"],
+            {"name": "E1-bfs", "path": "mc/explore.py", "serves_properties": ["C01", "C06", "C20"],
              "kind_free_text": "explicit-state BFS over the real transition function; states are histories replayed on fresh real objects; dedup on canonical public snapshot"},
             {"name": "E1-seq", "path": "mc/props/c11.py", "serves_properties": ["C11"],
              "kind_free_text": "stateless enumeration of all event sequences up to a depth with trace monitors"},
